@@ -23,12 +23,14 @@ type pkgSpec struct{ dir, name string }
 var pkgPool = []pkgSpec{{"a", "a"}, {"b", "b"}, {"c", "c"}, {"n/sub", "sub"}, {"d-x", "dx"}, {"e.v", "ev"}, {"odd", "quirk"}, {"z", "z"}}
 
 type gen struct {
-	t      *rapid.T
-	o      GenOpts
-	p      *Prog
-	vseq   int
-	cur    []Decl // declarations of the package under construction
-	curPkg *Pkg
+	t          *rapid.T
+	o          GenOpts
+	p          *Prog
+	vseq       int
+	cur        []Decl // declarations of the package under construction
+	curPkg     *Pkg
+	curTypes   []*TypeDecl
+	curEarlier []*Pkg
 }
 
 func (g *gen) chance(label string, pct int) bool {
@@ -39,11 +41,21 @@ func (g *gen) has(cat string) bool          { return g.o.Focus == cat || g.o.Foc
 
 // scope tracks variables usable as operands inside a body.
 type scope struct {
-	g      *gen
-	vars   []*Var
-	addPar func(v *Var) // adds a parameter to the nearest holder
-	recv   *Var
-	parent *scope
+	g         *gen
+	vars      []*Var
+	addPar    func(v *Var) // adds a parameter to the nearest holder
+	recv      *Var
+	parent    *scope
+	ptrParams bool // new parameters must be pointers (callers pass nil)
+}
+
+func (s *scope) ptrOnly() bool {
+	for c := s; c != nil; c = c.parent {
+		if c.ptrParams {
+			return true
+		}
+	}
+	return false
 }
 
 func (s *scope) all() []*Var {
@@ -69,6 +81,9 @@ func (s *scope) operand(t *TypeDecl, wantPtr bool, strict bool) *Var {
 }
 
 func (s *scope) newParam(t *TypeDecl, ptr bool) *Var {
+	if s.ptrOnly() {
+		ptr = true
+	}
 	s.g.vseq++
 	v := &Var{Name: fmt.Sprintf("p%d", s.g.vseq), Ref: &TypeRef{Type: t, Ptr: ptr}, ID: s.g.p.NewID()}
 	h := s
@@ -143,6 +158,7 @@ func (g *gen) genPkg(pkg *Pkg, earlier []*Pkg) {
 		types = append(types, td)
 		decls = g.add(decls, td)
 	}
+	g.curTypes, g.curEarlier = types, earlier
 	// ---- constructors
 	for _, td := range types {
 		if !td.HasCtor() {
@@ -187,6 +203,16 @@ func (g *gen) genPkg(pkg *Pkg, earlier []*Pkg) {
 		fd := g.genFunc(pkg, nil, name, types, earlier)
 		funcs = append(funcs, fd)
 		decls = g.add(decls, fd)
+	}
+	// ---- functions reaching an imported type only through a same-package helper
+	// (the using file needs no import) and functions whose parameter is spelled
+	// like the package qualifier
+	if len(earlier) > 0 && g.chance("indirectUser", 35) {
+		if ds := g.genIndirect(pkg, earlier, len(decls)); ds != nil {
+			for _, d := range ds {
+				decls = g.add(decls, d)
+			}
+		}
 	}
 	// ---- package-level vars
 	nv := rapid.IntRange(0, 3).Draw(t, "nvars")
@@ -408,7 +434,7 @@ func (g *gen) genCtor(pkg *Pkg, td *TypeDecl, name string) *FuncDecl {
 	ptr := strings.HasPrefix(name, "New")
 	fd.Results = []*TypeRef{{Type: td, Ptr: ptr}}
 	fd.ResultIDs = []int{g.p.NewID()}
-	sc := &scope{g: g}
+	sc := &scope{g: g, ptrParams: true}
 	sc.addPar = func(v *Var) { fd.Params = append(fd.Params, v) }
 	switch td.Kind {
 	case KInt:
@@ -424,7 +450,7 @@ func (g *gen) genCtor(pkg *Pkg, td *TypeDecl, name string) *FuncDecl {
 		if ptr {
 			kind = "litptr"
 		}
-		fd.Body = append(fd.Body, &Site{ID: g.p.NewID(), Kind: kind, Type: td, Ref: &TypeRef{Type: td}, Form: "define", Local: "t"})
+		fd.Body = append(fd.Body, &Site{ID: g.p.NewID(), Kind: kind, Type: td, Ref: &TypeRef{Type: td}, Form: "define", Local: "t", LocalVar: loc})
 		sc.vars = append(sc.vars, loc)
 		if td.Kind == KStruct {
 			n := rapid.IntRange(0, 3).Draw(g.t, "ctorWrites")
@@ -434,7 +460,11 @@ func (g *gen) genCtor(pkg *Pkg, td *TypeDecl, name string) *FuncDecl {
 				}
 			}
 		}
-		fd.RetExpr = "t"
+		fd.RetVar = loc
+	}
+	// a constructor of this type is an ordinary function for every other type
+	if g.chance("ctorTouchesOthers", 40) {
+		fd.Body = append(fd.Body, g.genBody(sc, pkg, g.curTypes, g.curEarlier, 1, false)...)
 	}
 	fd.done = true
 	return fd
@@ -532,7 +562,12 @@ func (g *gen) maybeWrap(sc *scope, s Stmt, depth int) Stmt {
 			break
 		}
 		k := WrapKind(g.pick("wrapKind", int(WClosureParams))) // closureparams handled separately
-		s = &Wrap{Kind: k, Body: []Stmt{s}}
+		w := &Wrap{Kind: k, Body: []Stmt{s}}
+		if k == WVarClosure {
+			g.vseq++
+			w.Name = fmt.Sprintf("fn%d", g.vseq)
+		}
+		s = w
 	}
 	return s
 }
@@ -556,7 +591,30 @@ func (g *gen) genSite(sc *scope, pkg *Pkg, own []*TypeDecl, earlier []*Pkg) Stmt
 	}
 }
 
+// shadowDecoy: inside a method, a closure whose pointer parameter carries the
+// receiver's name and is overwritten - not a receiver overwrite.
+func (g *gen) shadowDecoy(sc *scope, vis []*TypeDecl) Stmt {
+	var st []*TypeDecl
+	for _, v := range vis {
+		if v.Kind == KStruct {
+			st = append(st, v)
+		}
+	}
+	if len(st) == 0 || sc.recv == nil {
+		return nil
+	}
+	u := st[g.pick("shadowType", len(st))]
+	pv := &Var{Name: sc.recv.Name, Ref: &TypeRef{Type: u, Ptr: true}, ID: g.p.NewID(), Shadow: true}
+	site := &Site{ID: g.p.NewID(), Kind: "ptr.assign", Type: u, Ref: &TypeRef{Type: u}, Opnd: pv}
+	return &Wrap{Kind: WClosureParams, Params: []*Var{pv}, Body: []Stmt{site}}
+}
+
 func (g *gen) immFamily(sc *scope, td *TypeDecl, vis []*TypeDecl) Stmt {
+	if sc.recv != nil && g.chance("shadowDecoy", 12) {
+		if s := g.shadowDecoy(sc, vis); s != nil {
+			return s
+		}
+	}
 	// receiver forms when inside a method with pointer receiver
 	if sc.recv != nil && sc.recv.IsPtr() && g.chance("recvForm", 30) {
 		rt := sc.recv.Ref.Type
@@ -687,6 +745,9 @@ func (g *gen) findFunc(p *Pkg, name string) *FuncDecl {
 func methodsOf(t *TypeDecl) []*FuncDecl {
 	var out []*FuncDecl
 	for _, f := range t.Pkg.Files {
+		if f.Kind != FileRegular {
+			continue
+		}
 		for _, d := range f.Decls {
 			if fd, ok := d.(*FuncDecl); ok && fd.Recv != nil && fd.Recv.Ref.Type == t {
 				out = append(out, fd)
@@ -793,4 +854,73 @@ func (g *gen) genPkgVarSite(pkg *Pkg, name string, own []*TypeDecl, earlier []*P
 		s.Kind = "varblank"
 	}
 	return s
+}
+
+// genIndirect builds (a) a helper `func hN() *d.T { return nil }` plus a user
+// function whose only route to d.T is hN(), and (b) a function whose parameter
+// carries the name of d's qualifier.
+func (g *gen) genIndirect(pkg *Pkg, earlier []*Pkg, n int) []Decl {
+	var cands []*TypeDecl
+	for _, ep := range earlier {
+		for _, t := range typesOf(ep) {
+			if t.Kind == KStruct {
+				cands = append(cands, t)
+			}
+		}
+	}
+	if len(cands) == 0 {
+		return nil
+	}
+	t := cands[g.pick("indType", len(cands))]
+	var out []Decl
+	sitesOn := func(o *Var, sc *scope) []Stmt {
+		var body []Stmt
+		k := rapid.IntRange(1, 3).Draw(g.t, "indSites")
+		for i := 0; i < k; i++ {
+			ms := methodsOf(t)
+			if len(ms) > 0 && g.chance("indMethod", 60) {
+				fd := ms[g.pick("indM", len(ms))]
+				ok := true
+				for _, p := range fd.Params {
+					if p.Ref != nil && !p.Ref.Ptr && p.Ref.Type.Kind == KStruct {
+						ok = false
+					}
+				}
+				if ok {
+					fd.called = true
+					kind := "mcall"
+					if g.chance("indMValue", 20) {
+						kind = "mvalue"
+					}
+					body = append(body, g.maybeWrap(sc, &Site{ID: g.p.NewID(), Kind: kind, Fn: fd, Opnd: o}, 1))
+					continue
+				}
+			}
+			if s := g.immSite(sc, t, o); s != nil {
+				body = append(body, g.maybeWrap(sc, s, 1))
+			}
+		}
+		return body
+	}
+	if g.chance("viaHelper", 60) {
+		h := &FuncDecl{ID: g.p.NewID(), Name: fmt.Sprintf("H%d", n), Pkg: pkg, done: true, called: true}
+		h.Results = []*TypeRef{{Type: t, Ptr: true}}
+		h.ResultIDs = []int{g.p.NewID()}
+		h.RetExpr = "nil"
+		u := &FuncDecl{ID: g.p.NewID(), Name: fmt.Sprintf("Fi%d", n), Pkg: pkg, done: true}
+		sc := &scope{g: g}
+		sc.addPar = func(v *Var) { u.Params = append(u.Params, v) }
+		o := &Var{Name: "_", Ref: &TypeRef{Type: t, Ptr: true}, CallOf: h}
+		u.Body = sitesOn(o, sc)
+		out = append(out, h, u)
+	} else {
+		u := &FuncDecl{ID: g.p.NewID(), Name: fmt.Sprintf("Fs%d", n), Pkg: pkg, done: true}
+		sc := &scope{g: g}
+		sc.addPar = func(v *Var) { u.Params = append(u.Params, v) }
+		o := &Var{Name: "_", Ref: &TypeRef{Type: t, Ptr: true}, PkgNamed: t.Pkg, ID: g.p.NewID()}
+		u.Params = append(u.Params, o)
+		u.Body = sitesOn(o, sc)
+		out = append(out, u)
+	}
+	return out
 }
